@@ -82,3 +82,5 @@ func vRSADecryptCalls() int
 
 func vGCMTagOK(name string) bool
 func vIsGCMOpened(out []byte) bool
+
+func vB64Str(name string) string
